@@ -46,6 +46,14 @@ Theorem C04_assignids_total :
 Proof. exact assign_ids_total. Qed.
 Print Assumptions C04_assignids_total.
 
+(* The daemon's directory walk (prefetch / background fetch: cacheWithReader, each directory id once) terminates on EVERY
+   child graph, in particular with hardlinks to ancestor directories (cycles) and shared subtrees: recursion depth at most
+   number of objects + 2, every directory listed once. *)
+Theorem C04_prefetch_walk_total :
+  forall (s : st) (root : nat), walk_dirs s root <> Panic /\ walk_dirs s root <> OutOfFuel.
+Proof. exact walk_dirs_total. Qed.
+Print Assumptions C04_prefetch_walk_total.
+
 (* file.ReadAt never loops forever: for every chunk lookup function (any int64 pairs: gaps, overlaps, empty, negative,
    unsorted, wrapping chunks), every cache behaviour, every payload read result and verification result, every offset
    and length, the loop ends within len(p)+1 iterations. *)
@@ -113,11 +121,12 @@ Example C04_open_nonvacuous :
   /\ open_select 60 false 0 (repeat 0%N 51) (fun _ => ok) (fun _ => true) = Ok 0%nat.
 Proof. vm_compute. split; reflexivity. Qed.
 
-(* hardlink cycle a -> b -> a: an error (C04-fix-4); hardlink to the parent directory: an error (C04-fix-5);
-   a regular file whose child is a hardlink back to it (a cyclic child graph that IS accepted): 2 ids, walk ends *)
+(* hardlink cycle a -> b -> a: an error (C04-fix-4); a hardlink to the parent directory is accepted: the directory graph
+   is cyclic (d -> l = d), 2 ids (root, d), the walk lists d under the root and l under d and ends;
+   a regular file whose child is a hardlink back to it: 2 ids, walk ends *)
 Example C04_tree_nonvacuous :
   tree_run [mkEntry [0] THardlink [1]; mkEntry [1] THardlink [0]] = Err
-  /\ tree_run [mkEntry [0] TDir []; mkEntry [0; 1] THardlink [0]] = Err
+  /\ tree_run [mkEntry [0] TDir []; mkEntry [0; 1] THardlink [0]] = Ok (2, [([1], 0); ([0], 0)])
   /\ tree_run [mkEntry [0] TReg []; mkEntry [0; 1] THardlink [0]] = Ok (2, [([0], 1)]).
 Proof. vm_compute. repeat split. Qed.
 
